@@ -7,7 +7,8 @@ claim("C09", "proof", "flow-sensitive must-lockset analysis over go/ssa CFG + ca
       BASE_NOTE + " Assumes callbacks do not re-enter the cache, a Store is not shared between caches, sync.Mutex semantics.",
       "DESIGN.md section 3, C09")
 claim("C16", "model_checking", "table extraction from the typed AST + exhaustive product construction against a POSIX reference transducer; SSA rules tie the interpreter loop to the table",
-      "Exhaustive comparison of the transducer extracted from the source tables (update, classOf, initial state, per-action effects of Scanner.Next, end-of-input verdict, "
+      "Exhaustive comparison of the transducer extracted from the source tables (the transition table and byte-class table located by their use in Scanner.Next, not by name; initial state, "
+      "per-action effects of Scanner.Next derived from what each arm does, class meaning derived from the bytes assigned to each class, end-of-input verdict, "
       "Complete) with an independently written POSIX reference transducer: every reachable (implementation state, reference state, class) triple and every end-of-input verdict "
       "is compared, which covers every input string. Structural rules add chunking independence (input only through ReadByte), permanent stop after end of input, Rest handing back "
       "the same buffered reader, stoppable Each, pooled scanner reset. Does NOT decide agreement with a real /bin/sh (nothing is executed); the reference transducer is trusted.",
@@ -91,14 +92,18 @@ claim("C08", "other", "in-block pairing of departures with callback/size/count e
       "Does NOT decide which entry is evicted (needs a correct heap - C05/F1 - and a history argument) nor agreement with a reference LRU cache.",
       BASE_NOTE + " Assumes the size function is non-negative.",
       "DESIGN.md section 3, C08")
-claim("C15", "other", "constant-set extraction by value; exhaustive exploration of quote's CFG as a boolean program with an output typestate; pool-discipline path rules",
-      "Decides: the set of bytes that force quoting (read by value from the constants quotable uses) contains every POSIX-special byte and every byte the package's own tokenizer "
-      "treats specially; quotable sets its two bits exactly on membership and scans the whole string; an exhaustive exploration of quote's control-flow graph over the "
-      "predicates {inq, hasQ, hasOther, 'ch is a quote'} x output typestate {outside, inside quotes, after backslash} shows that every input byte is written exactly once and in "
-      "order, an input quote only ever follows a backslash outside quotes, a possibly-special byte is only written inside quotes, and the function returns outside quotes; "
-      "pooled buffers are reset before use, returned on every exit and never escape; Split's results come only from the scanner. "
-      "Does NOT decide Split(Join(ss)) == ss as an input/output fact, nor what a real shell does with the output.",
-      BASE_NOTE + " POSIX XCU 2.2's list of special characters is the oracle for the set rule.",
+claim("C15", "model_checking", "explicit-state abstract execution of Quote and Join (callees inlined) over byte-class strings, composed with the tokenizer model extracted for C16 and with the POSIX reference transducer; exploration-based summaries of whole-string predicates; pool-discipline path rules",
+      "Decides, at the level of byte classes (the partition of the 256 byte values induced by every byte test in the code, the tokenizer's class table, the POSIX classes and the POSIX set of "
+      "special characters) and for all strings and lists of strings: Split(Join(ss)) == ss with the input reported complete, Split(Quote(s)) == [s], and a POSIX word-splitting reading of "
+      "Quote(s) yields the single word s with every byte special to a POSIX shell inside single quotes or after a backslash. Quote and Join are explored exhaustively as finite-state programs "
+      "(control-flow graphs of the functions and of every package-local callee, values abstracted to booleans, small integers, byte classes and per-string summaries); every byte they write is "
+      "pushed through the package's own tokenizer (table, class table and per-action effects extracted from the source, as for C16) and through an independently written POSIX transducer; "
+      "checked on every path: input bytes visited once in order and written exactly once, read back as themselves, quoting syntax read back as nothing, word boundaries exactly between the "
+      "strings of Join, an empty string still yields a word, the result ends complete. Each whole-string predicate (quotable) is shown by exploration to be 'some byte lies in a fixed set' "
+      "and scanned to the end unless all results are already true; the sets must contain every POSIX-special byte and every byte the tokenizer does not treat as ordinary. Pooled buffers are "
+      "reset before use, returned on every exit and never escape; Split's results come only from the scanner. "
+      "Does NOT decide what a real /bin/sh does beyond the written POSIX reference, that Join visits every element (an element skipped entirely is not noticed), or strings with NUL.",
+      BASE_NOTE + " POSIX XCU 2.2's list of special characters and the reference transducer of C16 are the oracles; the tokenizer model is the one checked under C16.",
       "DESIGN.md section 3, C15")
 claim("C01", "other", "provenance of clone's links; stop-flag path rule; orientation derived from the in-order walk and checked on descents, navigation and the bulk loader; value-flow of the stored root; must-pass dedup",
       "Decides structural clauses: Tree.Clone is a deep copy (every node allocated by node.clone links only to copies, the original is never written, Clone's root is clone(root)) so "
